@@ -412,6 +412,16 @@ func runC05(e *Env) error {
 			"{{ random(B, B) is defined }}", "{{ range(B, 3)|length }}", "{{ range(1, 3, B)|length }}", "{{ range(B, B)|length }}", "{{ 'x%dy'|format(B) }}", "{{ B|abs }}", "{{ B is even }}{{ B is odd }}{{ B is divisible_by(3) }}{{ 7 is divisible_by(B) }}",
 			"{{ B + B }}{{ B * B }}{{ B - B }}{{ B % 7 }}{{ 7 % B }}{{ B ^ 2 }}{{ 2 ^ B }}", "{{ B / 3 }}{{ 3 / B }}", "{{ [1, 2, 3][B] is defined }}", "{{ 'abc'[B] is defined }}", "{{ B|date('Y') is defined }}", "{{ date(B)|length > 0 }}",
 			"{{ max(B, 1) }}{{ min(B, 1) }}", "{{ [3, 1, 2]|first(B) is defined }}", "{{ 'abc'|truncate(B) is defined }}", "{{ B|json_encode }}", "{{ B ~ '' }}{{ B|length }}{{ B in [B] }}", "{% for i in range(1, 3, B) %}x{% endfor %}", "{{ 'ab'|repeat(B) is defined }}"}
+		// …and the subject varied too (a defect of the unchanged tree hid there: {{ 1|number_format(9223372036854775807) }}
+		// panicked in makeslice while 2.5|number_format(…) did not; repaired in /repo 66bbb15)
+		subjForms := []string{"{{ S|round(B) }}", "{{ S|round(B, 'ceil') }}{{ S|round(B, 'floor') }}", "{{ S|number_format(B) }}", "{{ S|number_format(B, ',', '.') }}", "{{ S|slice(B) is defined }}", "{{ S|slice(1, B) is defined }}",
+			"{{ S|split(',', B) is defined }}", "{{ S|truncate(B) is defined }}", "{{ S|format(B) is defined }}", "{{ cycle(S, B) is defined }}", "{{ S is divisible_by(B) }}", "{{ S % B }}", "{{ S / B }}", "{{ S ^ B }}", "{{ S[B] is defined }}",
+			"{{ S|first(B) is defined }}{{ S|last(B) is defined }}", "{{ S|batch(B) is defined }}", "{{ S|date(B) is defined }}", "{{ range(S, B)|length }}", "{{ max(S, B) }}{{ min(S, B) }}"}
+		for _, f := range subjForms {
+			for _, sj := range []string{"0", "1", "7", "(0 - 3)", "0.5", "2.5", "'12'", "'x'", "''", "null", "[1, 2, 3]", "{'a': 1}", "true"} {
+				forms = append(forms, strings.ReplaceAll(f, "S", sj))
+			}
+		}
 		for _, f := range forms {
 			for _, bg := range bigs {
 				src := strings.ReplaceAll(f, "B", bg)
